@@ -406,7 +406,9 @@ func returnPoints(fn *ssa.Function, idx int) []retPoint {
 		if idx >= len(ret.Results) {
 			continue
 		}
-		out = append(out, expandPhi(b, ret.Results, idx, ret.Pos(), map[*ssa.Phi]bool{})...)
+		results := unspill(b, ret)
+		pos := ret.Pos()
+		out = append(out, expandPhi(b, results, idx, pos, map[*ssa.Phi]bool{})...)
 	}
 	return out
 }
@@ -650,4 +652,40 @@ func intervalAt(fn *ssa.Function, b *ssa.BasicBlock, isX vpred) (lo, hi int64, h
 		}
 	}
 	return
+}
+
+// unspill resolves results that go/ssa spilled to locals because of defers: `*t = v; rundefers; r = *t; return r`.
+// A deferred closure could still overwrite the local; only functions whose deferred calls do not capture the
+// result locals are resolved (otherwise the load is kept as is).
+func unspill(b *ssa.BasicBlock, ret *ssa.Return) []ssa.Value {
+	out := append([]ssa.Value(nil), ret.Results...)
+	for i, v := range out {
+		u, ok := v.(*ssa.UnOp)
+		if !ok || u.Op != token.MUL {
+			continue
+		}
+		al, ok := u.X.(*ssa.Alloc)
+		if !ok || al.Heap {
+			continue
+		}
+		// referrers: only stores and loads in this function (not captured)
+		captured := false
+		for _, ref := range *al.Referrers() {
+			switch ref.(type) {
+			case *ssa.Store, *ssa.UnOp, *ssa.DebugRef:
+			default:
+				captured = true
+			}
+		}
+		if captured {
+			continue
+		}
+		for j := len(b.Instrs) - 1; j >= 0; j-- {
+			if st, ok := b.Instrs[j].(*ssa.Store); ok && st.Addr == al {
+				out[i] = st.Val
+				break
+			}
+		}
+	}
+	return out
 }
